@@ -60,6 +60,23 @@ def _check_rows(cl, fn, got, want_rows, margins, n_used, n_expected, N, detail, 
     return True
 
 
+def _same_records_again(cl, rng, raw, recs, N, dt, first):
+    """the same recording objects handed to process() a second time, with another method: the curves are still those of the samples as they were recorded
+    (a run that tapered, rotated or otherwise edited the caller's recordings shows here and nowhere else)"""
+    import hvsrpy
+    method = str(rng.choice(list(rp.ALIASES)))
+    s, n_exp, width, op, b, fcs = _settings("HvsrTraditionalProcessingSettings", rng, N, dt, method_to_combine_horizontals=method)
+    try:
+        h = hvsrpy.process(recs, s)
+    except Exception:
+        return True
+    n_used = s.fft_settings["n"]
+    want = [rp.curve_traditional(*r[:3], dt, n_used, method, width, op, b, fcs) for r in raw]
+    cl.case(("again", first, method, op, b, width, N, dt))
+    return _check_rows(cl, "hvsrpy.processing.process", h.amplitude, [w[0] for w in want], [w[1] for w in want], n_used, n_exp, N,
+                       dict(first_run=first, method=method, operator=op, bandwidth=b, width=width, N=N, dt=dt, fcs=fcs), f"again-after-{first}")
+
+
 def traditional(cl, rng, n, replay):
     import hvsrpy
     methods = list(rp.ALIASES)
@@ -108,6 +125,8 @@ def single_azimuth(cl, rng, n, replay):
                            [w[1] for w in want], n_used, n_exp, N, dict(azimuth=az, operator=op, bandwidth=b, width=width, N=N, dt=dt, fcs=fcs),
                            "single_azimuth"):
             return
+        if j % 2 == 0 and not _same_records_again(cl, rng, raw, recs, N, dt, "single_azimuth"):
+            return
 
 
 def rotdpp(cl, rng, n, replay):
@@ -130,6 +149,8 @@ def rotdpp(cl, rng, n, replay):
         cl.case((tuple(azs), p, op, b, width, N, dt))
         if not _check_rows(cl, "hvsrpy.processing.traditional_rotdpp_hvsr_processing", h.amplitude, [w[0] for w in want], [w[1] for w in want],
                            n_used, n_exp, N, dict(azimuths=azs, percentile=p, operator=op, bandwidth=b, width=width, N=N, dt=dt, fcs=fcs), "rotdpp"):
+            return
+        if not _same_records_again(cl, rng, raw, recs, N, dt, "rotdpp"):
             return
 
 
@@ -156,6 +177,8 @@ def azimuthal(cl, rng, n, replay):
             if not _check_rows(cl, "hvsrpy.processing.azimuthal_hvsr_processing", hv.amplitude, [w[0] for w in want], [w[1] for w in want],
                                n_used, n_exp, N, dict(azimuth=a, operator=op, bandwidth=b, width=width, N=N, dt=dt, fcs=fcs), "azimuthal"):
                 return
+        if j % 2 == 0 and not _same_records_again(cl, rng, raw, recs, N, dt, "azimuthal"):
+            return
 
 
 def diffuse(cl, rng, n, replay):
@@ -181,6 +204,8 @@ def diffuse(cl, rng, n, replay):
         cl.case((op, b, width, N, dt, len(raw)))
         if not _check_rows(cl, "hvsrpy.processing.diffuse_field_hvsr_processing", [h.amplitude], [want], [margin], n_used, n_exp, N,
                            dict(operator=op, bandwidth=b, width=width, N=N, dt=dt, fcs=fcs), "diffuse"):
+            return
+        if j % 2 == 0 and not _same_records_again(cl, rng, raw, recs, N, dt, "diffuse"):
             return
 
 
